@@ -11,6 +11,7 @@ import Driver.SelDrv
 import Driver.TmoDrv
 import Driver.XmlDrv
 import Driver.FaultsDrv
+import Driver.LegsDrv
 open Cgreen.Drv
 
 /-- Read all of stdin as lines. -/
@@ -49,6 +50,11 @@ def main (args : List String) : IO UInt32 := do
     return 0
   | ["timeout"] =>
     for l in lines do out.putStrLn (Cgreen.Drv.TM.evalLine l)
+    return 0
+  | ["legs"] =>
+    for b in blocks lines do
+      for l in Cgreen.Drv.LG.legsOfScenario b do out.putStrLn l
+      out.putStrLn "---"
     return 0
   | ["faults"] =>
     for b in blocks lines do
